@@ -7,6 +7,7 @@
 -/
 import BioCantor.Driver.Proto
 import BioCantor.Spec.Digest
+import BioCantor.Spec.DigestDict
 namespace BioCantor.Driver.SpecDig
 open BioCantor BioCantor.Proto BioCantor.Spec.Digest
 open BioCantor.Spec.Qual (Str)
@@ -153,6 +154,34 @@ def ops : List (String × Op) := [
       let s1 ← pInt; let e1 ← pInt; let s2 ← pInt; let e2 ← pInt; pArrow
       let a ← pRest
       if s1 == s2 && e1 == e2 then pure "n/a" else pure (verdict (a == ["ok", "differ"]))),
+  -- `Cls.from_dict(d).to_dict()`: documented keys, values carried over (only `ok` answers are judged here; which
+  -- dictionaries are refused is C19's subject)
+  ("dictrt", do
+      let cls ← tok; let d ← pVal; pArrow
+      match (← get) with
+      | "ok" :: _ => do
+        let a ← pAns pVal
+        pure (verdict (okDictRt cls d a))
+      | _ => do set ([] : List String); pure "n/a"),
+  -- two descriptions: same content (re-ordered insertions) / one coordinate, strand or frame changed
+  ("digest2", do
+      let flag ← tok; let _ ← tok; let _ ← pVal; pBar; let _ ← pVal; pArrow
+      match (← get) with
+      | "ok" :: _ => do
+        let a ← pAns (do
+          let g1 ← tok; let t1 ← pList pStr; pBar
+          let g2 ← tok; let t2 ← pList pStr
+          pure ((g1.toList, t1), (g2.toList, t2)))
+        pure (verdict (okDigestPair (flag == "same") a))
+      | _ => do set ([] : List String); pure "n/a"),
+  -- the dictionary an object exports must be loadable by its data model (`rt`); `raw` lines only tie the model
+  ("schema", do
+      let _ ← tok; let mode ← tok; let a ← pAfterArrow
+      if mode != "rt" then pure "n/a"
+      else match a with
+        | ["ok", "accept"] => pure "pass"
+        | "ok" :: _ => pure ("fail " ++ " ".intercalate (a.take 3))
+        | _ => pure "n/a"),
   ("obj", do let a ← pAfterArrow; pure (cleanVerdict a)),
   ("sweep", do let a ← pAfterArrow; pure (cleanVerdict a)),
   ("pickleleaf", do let a ← pAfterArrow; pure (cleanVerdict a)),
